@@ -83,7 +83,10 @@ def run_impl(src, script, horizon):
     """-> list of per-config observations (dict)"""
     obs = []
     for (o, g), cname in zip(impl.CONFIGS, CFG_NAMES):
-        r = impl.compile_text(src, o, g, want_listing=False)
+        r = impl.compile_text(src, o, g, limit=30.0, want_listing=False)
+        if r.kind == 'timeout':
+            # a loaded machine must not look like a hanging compiler: once more, generously
+            r = impl.compile_text(src, o, g, limit=240.0, want_listing=False)
         if not r.ok:
             obs.append({'cfg': cname, 'compile': r.kind, 'brief': r.brief()[:200]})
             continue
@@ -328,6 +331,7 @@ def _ref_class(case, it):
 def _viol(case, it, v, d, extra=None):
     feat = {'family': case.family}
     feat.update(it.feat)
+    feat.pop('key', None)         # identifies the item (kept in case.rebuild), not a cause class
     feat['divergence'] = d[0]
     feat['configs'] = d[3]
     feat['expected_class'] = _short(d[1]) if d[0] == 'outcome' else None
